@@ -269,9 +269,10 @@ MoveOp(S, v, prm) ==
 
 (* vehicle_state_ops.charge: the energy / money side is numeric and checked by the ledger clauses *)
 ChargeOp(S, v, s, p) ==
-  IF ~HasSt(S, s) THEN Err(S)
+  IF FixFull /\ S.veh[v].full THEN Ok(S)        \* Charging*._perform_update: nothing to add, no-op
+  ELSE IF ~HasSt(S, s) THEN Err(S)
   ELSE IF ~Installed(S, s, p) THEN Err(S)
-  ELSE IF S.veh[v].full THEN (IF FixFull THEN Ok(S) ELSE Err(S))
+  ELSE IF S.veh[v].full THEN Err(S)             \* charge() refuses a full vehicle
   ELSE Ok(S)
 
 PerformOp(S, v, prm) ==
